@@ -118,7 +118,8 @@ def run(facts, tier):
     res.explanation = (
         "static (narrow): C11-1 the two implementations of the 3-case algorithm of XML 1.0 3.3.3 (XmlAttribute::normalized_value "
         "for the items of an attribute, expand_entity for replacement text) agree arm by arm: literal text goes through "
-        "normalize_ws, character references do not, entity references recurse; C11-2 normalize_ws replaces exactly #x20, #xD, "
+        "normalize_ws, character references written in the attribute do not (those of an entity literal belong to the "
+        "replacement text and do), entity references recurse; C11-2 normalize_ws replaces exactly #x20, #xD, "
         "#xA, #x9 by one space (constants read from the typed tree); C11-3 collapsing of spaces is skipped only for CDATA; "
         "C11-4 an attribute is synthesised from a declaration only for a default value; C11-5 synthesised attributes know their "
         "element; all attribute-list declarations of an element are consulted; C11-6 entity recursion is guarded (R03-3).")
@@ -139,7 +140,9 @@ def run(facts, tier):
                             % (v, sorted(ns or []), sorted(must), sorted(must_not)), f["file"], f["line"], {}))
     g = facts.fn("xml_info::expand_entity")
     b = arms_by_variant(g, "XmlEntityValue")
-    want2 = {"Character": ({"char_from_char10", "char_from_char16"}, {"normalize_ws"}), "Entity": ({"expand_entity"}, {"normalize_ws"}),
+    # replacement text (XML 1.0 4.5) contains the characters denoted by character references of the entity literal, so
+    # they are normalised like literal text: 3.3.3's example `<!ENTITY d "&#xD;">  a="&d;"` gives one space
+    want2 = {"Character": ({"char_from_char10", "char_from_char16", "normalize_ws"}, set()), "Entity": ({"expand_entity"}, {"normalize_ws"}),
              "Text": ({"normalize_ws"}, {"expand_entity"})}
     for v, (must, must_not) in want2.items():
         st["instances"] += 1
